@@ -1,29 +1,53 @@
 """C16 - symmetry groups are proper point groups; orientation reduction is canonical.
 
-Specification: specs/SymGroup.tla (configurations SymGroup_q / _t / _cache / _cache3 / _ties).
+Specification: specs/SymGroup.tla (configurations SymGroup_q / _t / _cache / _cache3 / _ties / _conc / _conct /
+_early / _hkl500).
 
 Binding (DESIGN.md section 5, C16):
   mode B  every sequence of named-group calls TLC explores (symcache hit / miss) is replayed against
           ImageD11.sym_u with a cleared cache: group list identical to the model's closure *in
           generation order*, cache keys, object identity on a hit, earlier objects untouched;
+  mode B  two threads: TLC explores every interleaving of the steps of generate_group (lookup, constructor, each
+          additem / makegroup step, publish, return) for two concurrent FIRST calls and checks that no caller
+          ever holds a group that is not closed / not of the full order (SymGroup_conc: every name against
+          itself + nine pairs, cubic / hexagonal preempted at some rows only; SymGroup_conct: all 55 pairs,
+          every step; SymGroup_early: the publish-before-built variant violates the invariant).  The real
+          generate_group is driven by two threads in FRESH interpreters (harness/c16_conc_child.py: symcache
+          replaced by a logging dict subclass, group.__init__ / additem / op wrapped - hook points where a
+          thread parks until the controller grants a step; nothing in the tree is edited) under cut / cut2 /
+          round-robin / seeded random schedules, so that the second thread looks the cache up in the middle of
+          the first thread's build.  Judged: what every caller holds AT ITS RETURN satisfies the group clauses
+          and never changes afterwards (the property), the list is the model's closure, and the history of
+          dictionary accesses / hits / object sharing is that of a terminal state TLC reached (conformance);
   mode A  every orbit record TLC emits (exact integer UBI x every group element applied beforehand,
-          every hkl of the box x every group element) is fed to sym_u.find_uniq_u /
-          sym_u.find_uniq_hkls and compared with the specification's result for that start;
-          the property clauses (member of the orbit, canonical, idempotent, metric kept, same indexed
-          lattice) are re-evaluated on the *real* outputs in exact integer arithmetic;
-  plus    seeded generic float orientations of conforming cells (ties have measure zero there),
-          and the users refinegrains.makeuniq, grid_index_parallel.uniq_grain_list and (thorough)
-          sinograms.point_by_point.idxpoint.
+          every hkl of the box and of BigHkls - static and seeded triples with entries up to 499 - x every
+          group element) is fed to sym_u.find_uniq_u / sym_u.find_uniq_hkls (int64, float64, int32 input) and
+          compared with the specification's result for that start; the property clauses (member of the orbit,
+          canonical, idempotent, metric kept, same indexed lattice; hkl: lexicographic maximum of the orbit)
+          are re-evaluated on the *real* outputs in exact integer arithmetic;
+  plus    harness-side families where the model is covariant: hkl arrays of 1 .. 1000 seeded columns with
+          entries up to 499 per dtype (expectation: lexicographic maximum, python / int64); float
+          orientations of conforming cells scaled 0.25 x, 1 x, 100 x (1 A .. 1e3 A) handed over as array / nested
+          list / Fortran / strided array / with func=np.trace / debug=1; exact tie orientations turned by
+          0 .. 1e-3 rad (near ties: canonical not judged, every other clause is); the users
+          refinegrains.makeuniq and grid_index_parallel.uniq_grain_list on exact records and on generic float
+          orientations (far-apart grain stays separate, alias trigonalP) and (thorough: the import costs 25 s)
+          sinograms.point_by_point.initializer + idxpoint.
+
+Domain of the hkl clauses: |h|, |k|, |l| <= 499 over the whole orbit (beyond, two orbit members can share the
+packed key: SymGroup_hkl500.cfg) and int64 / int32 / float64 arrays; 500..999, int16 and float32 input are
+counted under notes["observations"], never judged.
 
 Findings
   C16-find-uniq-u-trace-tie : exact trace ties make find_uniq_u starting-point dependent (F12).
           Excused only when (a) exact integer arithmetic shows the maximal trace is attained by
           >= 2 orbit members, (b) the real outputs equal the specification's first-strict-maximum
           scan from every start, (c) the set of real outputs is exactly the set of maximisers.
+          (Only judge_u, on exact integer records, can excuse: no float, hkl or two-thread case ever does.)
   C16-trigonal-setting      : sym_u.trigonal() does not preserve the metric of the gamma = 120 cell.
 """
 from __future__ import print_function
-import os, sys, json, re, io, math, time, itertools, contextlib, copy
+import os, sys, json, re, io, math, time, itertools, contextlib, copy, subprocess
 import common
 
 PROP = "C16"
@@ -34,11 +58,15 @@ ORDER = {"cubic": 24, "hexagonal": 12, "trigonal": 6, "rhombohedralP": 6, "tetra
 TIE_ID = "C16-find-uniq-u-trace-tie"
 TRIG_ID = "C16-trigonal-setting"
 TRIGONAL_FIXED = ("-y,x-y,z", "y,x,-z")          # the repaired generator set (TrigonalFixed = TRUE)
-WORKERS = 16
+WORKERS = int(os.environ.get("C16_TLC_WORKERS", "16"))     # (development on a loaded box: C16_TLC_WORKERS=4)
+HERE = os.path.dirname(os.path.dirname(os.path.abspath(__file__)))
+CONC_CHILD = os.path.join(HERE, "c16_conc_child.py")
+SHADOW = None      # set by run() / selftest(): the child processes import the same shadow package
 METRIC_CLAUSES = ("MetricPreserved", "Holohedry", "TransposeMatters", "MetricKept", "HklNormKept")
 
 np = None          # set by _imports() after use_shadow
 sym_u = None
+OBSERVATIONS = {}  # behaviour outside the property's statement: counted in the evidence notes, never judged
 
 
 # ------------------------------------------------------------------------------------------
@@ -401,6 +429,230 @@ def report_clause(V, name, clause, what, case, real_mats=None):
         V.violation(("clause", name, clause), what, case)
 
 
+
+# ---- the symcache protocol under concurrency: two threads make the first calls ---------------------
+
+def sim_labels(gens):
+    """the hook points a conforming first call passes (call, contains, new, additem, op ..., set), computed from
+    the specification's generator matrices.  Used ONLY to place the cut points of the schedules."""
+    labels = ["call", "contains", "new"]
+    grp = [tup(I3)]
+    for m in gens:
+        labels.append("additem")
+        if tup(m) not in grp:
+            grp.append(tup(m))
+        new = True
+        while new:
+            for a in grp:
+                for b in grp:
+                    labels.append("op")
+                    c = tup(mm(a, b))
+                    new = c not in grp
+                    if new:
+                        grp.append(c)
+    labels.append("set")
+    return labels
+
+
+def cut_points(L, rng, thorough):
+    """k = number of hook points the first thread has passed when the second thread starts (and runs through)"""
+    S = len(L)
+    marks = [p for p, l in enumerate(L) if l in ("additem", "set")]
+    if thorough and S <= 100:
+        return list(range(S + 1))
+    ks = set([0, 2, 3, 4, 5, S - 1, S])
+    for p in marks:
+        ks.update((p - 1, p, p + 1, p + 2, p + 3) if thorough else (p, p + 1, p + 3) if S <= 300 else (p + 1,))
+    if thorough:
+        ks.update(range(0, 8))
+    if S > 12:
+        ks.update(int(v) for v in rng.randint(5, S - 1, size=40 if thorough else 2))
+    return sorted(k for k in ks if 0 <= k <= S)
+
+
+def conc_jobs(name, L, rng, thorough):
+    """batches (one fresh interpreter each; quick: one, thorough: two) of schedules for both threads asking for
+    `name`; the first job of a batch is the first use of the name in its interpreter"""
+    S = len(L)
+    ks = cut_points(L, rng, thorough)
+    first = 4 if 4 in ks else ks[len(ks) // 2]        # the dictionary looked up right after the constructor ...
+    a = [{"names": [name, name], "policy": {"kind": "cut", "first": 0, "k": first}}]
+    for j, k in enumerate(k for k in ks if k != first):
+        a.append({"names": [name, name], "policy": {"kind": "cut", "first": j % 2, "k": k}})
+    a.append({"names": [name, name], "policy": {"kind": "rr"}})
+    mid = int(rng.randint(5, max(6, S - 1)))            # ... and somewhere inside makegroup
+    b = [{"names": [name, name], "policy": {"kind": "cut", "first": 1, "k": min(mid, S)}}]
+    for k in sorted(set([1, 2, 3, min(mid, S), S - 1]) if thorough else set([2, min(mid, S)])):
+        b.append({"names": [name, name], "policy": {"kind": "cut2", "first": int(rng.randint(2)), "k": k}})
+    for j in range(6 if thorough else 2 if S <= 300 else 1):
+        b.append({"names": [name, name], "policy": {"kind": "rand", "seed": int(rng.randint(1 << 30)), "first": j % 2,
+                                                     "p": float(rng.choice([0.05, 0.2, 0.5]))}})
+    return [a, b] if thorough else [a + b]
+
+
+def conc_pair_jobs(n1, n2, L1, L2, rng, thorough):
+    """one batch for two DIFFERENT names (keys that share generator strings or not)"""
+    jobs = []
+    for (x, y, Lx) in ((n1, n2, L1), (n2, n1, L2)):
+        S = len(Lx)
+        ks = [4, int(rng.randint(5, max(6, S - 1)))] + ([S - 1] + [int(v) for v in rng.randint(0, S + 1, size=6)] if thorough else [])
+        for k in ks:
+            jobs.append({"names": [x, y], "policy": {"kind": "cut", "first": 0, "k": min(k, S)}})
+        jobs.append({"names": [x, y], "policy": {"kind": "cut2", "first": 1, "k": min(ks[1], S)}})
+    jobs.append({"names": [n1, n2], "policy": {"kind": "rr"}})
+    jobs.append({"names": [n2, n1], "policy": {"kind": "rand", "seed": int(rng.randint(1 << 30)), "p": 0.3}})
+    return jobs
+
+
+_child_count = [0]
+
+
+def run_conc_child(jobs, timeout=3600):
+    """run the jobs in ONE fresh interpreter (harness/c16_conc_child.py); returns the list of results"""
+    if SHADOW is None:
+        raise common.MachineryError("run_conc_child before the shadow package is known")
+    _child_count[0] += 1
+    d = common.scratch()
+    jf = os.path.join(d, "c16_conc_jobs_%d_%d.json" % (os.getpid(), _child_count[0]))
+    of = os.path.join(d, "c16_conc_res_%d_%d.json" % (os.getpid(), _child_count[0]))
+    with open(jf, "w") as f:
+        json.dump({"jobs": jobs, "step_timeout": 300.0, "max_points": 20000}, f)
+    env = dict(os.environ, PYTHONDONTWRITEBYTECODE="1")
+    try:
+        p = subprocess.run([common.PY, CONC_CHILD, SHADOW, os.path.realpath(common.REPO), jf, of],
+                           stdout=subprocess.PIPE, stderr=subprocess.STDOUT, text=True, timeout=timeout, env=env)
+        tail = p.stdout[-2000:]
+    except subprocess.TimeoutExpired:
+        tail = "timeout after %d s" % timeout
+    if not os.path.exists(of):
+        raise common.MachineryError("c16_conc_child produced no result file: %s" % tail)
+    with open(of) as f:
+        out = json.load(f)
+    for x in (jf, of):
+        try:
+            os.unlink(x)
+        except OSError:
+            pass
+    if out.get("machinery"):
+        raise common.MachineryError("c16_conc_child: %s" % out["machinery"])
+    return out["results"]
+
+
+def _renumber(held, cache):
+    ids = {}
+
+    def oid(i):
+        if i is None:
+            return None
+        if i not in ids:
+            ids[i] = len(ids) + 1
+        return ids[i]
+    h = [oid(x) for x in held]
+    c = [[list(k), oid(o)] for k, o in cache]
+    return h, c
+
+
+def model_sig(rec, order):
+    """what the specification's terminal state says a schedule of this class shows, in the terms the child
+    reports.  order[r] = the specification's thread (1, 2) that real thread r plays."""
+    ev = [[order.index(e[0]), e[1], e[2]] for e in rec["ev"]]
+    hits = [bool(rec["hit"][m - 1]) for m in order]
+    held, cache = _renumber([rec["held"][m - 1] for m in order], rec["cache"])
+    return [ev, hits, held, cache]
+
+
+def real_sig(res):
+    ev = [[e["t"], e["op"], e["len"]] for e in res["events"] if e["op"] in ("get", "pub")]
+    hits = [any(e["op"] == "contains" and e["res"] and e["t"] == t for e in res["events"]) for t in (0, 1)]
+    held, cache = _renumber([th["obj"] if th else None for th in res["threads"]], res["cache"])
+    return [ev, hits, held, cache]
+
+
+def conc_classes(model, names):
+    """the distinct observable classes of the specification's terminal states for this pair of calls"""
+    out = []
+    for rec in model:
+        orders = []
+        if list(rec["names"]) == list(names):
+            orders.append((1, 2))
+        if list(rec["names"]) == list(names)[::-1]:
+            orders.append((2, 1))
+        for o in orders:
+            sg = model_sig(rec, o)
+            if sg not in out:
+                out.append(sg)
+    return out
+
+
+def judge_conc(case, real, V, result=None):
+    """case: names (what thread 0 / thread 1 ask for), policy (the schedule), closure {name: the specification's
+    list}, model (the specification's terminal records for this pair).  The real generate_group is driven by
+    two threads under the schedule in a fresh interpreter (result = what the child reported, when the batch has
+    been run already).  Judged: (b) the property on what each caller was handed AT ITS RETURN (closed, identity,
+    inverses, det 1, integer, order) and that it did not change afterwards; (a) conformance: the list is the
+    specification's closure, and the history of dictionary accesses, the hit flags and the sharing of objects
+    are those of one of the terminal states TLC reached for this pair."""
+    names = list(case["names"])
+    pair = "+".join(names)
+    if result is None:
+        rs = run_conc_child([{"names": names, "policy": case["policy"]}])
+        result = rs[0]
+    case = dict(case, observed={k: result.get(k) for k in ("events", "points", "labels", "cache", "stuck", "first_in_process")})
+    case["observed"]["threads"] = [None if t is None else {k: t.get(k) for k in ("name", "error", "obj")}
+                                   for t in result["threads"]]
+    if result.get("stuck"):
+        V.violation(("conc", names[0], "held"), "two threads calling %s under schedule %r: %s" %
+                    (pair, case["policy"], result["stuck"]), case)
+        return "stuck"
+    ok = True
+    for t, th in enumerate(result["threads"]):
+        n = names[t]
+        if th is None or th.get("error"):
+            V.violation(("conc", n, "held"), "concurrent first call of %s() (schedule %r, other thread: %s) raises %s" %
+                        (n, case["policy"], names[1 - t], th and th.get("error")), case)
+            ok = False
+            continue
+        ret = th["returned"]
+        mats = None if not isinstance(ret, list) else [as_int_matrix(m) for m in ret]
+        if mats is None or any(m is None for m in mats):
+            V.violation(("conc", n, "held"), "concurrent first call of %s(): the caller is handed a list with "
+                        "non-integer / unreadable elements" % n, case)
+            ok = False
+            continue
+        failed = group_clauses(mats, [])
+        if len(mats) != ORDER[n]:
+            failed.append("OrderOK")
+        if failed:
+            V.violation(("conc", n, "held"), "concurrent first call of %s() (schedule %r): thread %d is handed a group "
+                        "of %d elements (proper point group: %d) that violates %s" %
+                        (n, case["policy"], t, len(mats), ORDER[n], ", ".join(failed)), case)
+            ok = False
+        if "closure" in case and n in case["closure"] and mats != case["closure"][n]:
+            V.violation(("conc", "conform", "list"), "concurrent first call of %s(): the list handed to thread %d is not the "
+                        "specification's closure (%d elements, specification %d)" %
+                        (n, t, len(mats), len(case["closure"][n])), case)
+            ok = False
+        fin = result.get("final", {}).get(str(th["obj"]))
+        if fin != ret:
+            V.violation(("conc", n, "held"), "concurrent first call of %s(): the group thread %d holds changed after "
+                        "it was returned (%d elements at the return, %s at the end)" %
+                        (n, t, len(mats), len(fin) if isinstance(fin, list) else fin), case)
+            ok = False
+    if case.get("model") is not None:
+        classes = conc_classes(case["model"], names)
+        sg = real_sig(result)
+        if sg not in classes:
+            V.violation(("conc", "conform", "protocol", "same" if names[0] == names[1] else "cross"), "two threads calling %s under schedule %r: dictionary accesses %r "
+                        "(thread, get / pub, length of the object's list at that moment), hits %r, objects held %r, "
+                        "dictionary %r - no interleaving of the specification ends like this (%d classes)" %
+                        (pair, case["policy"], sg[0], sg[1], sg[2], sg[3], len(classes)), case)
+            ok = False
+        else:
+            case["class"] = classes.index(sg)
+            return ("ok", classes.index(sg), len(classes)) if ok else "bad"
+    return "ok" if ok else "bad"
+
+
 def orbit_u(G, x0):
     return [mm(o, x0) for o in G]
 
@@ -417,6 +669,7 @@ def judge_u(case, real, V):
     if G is None:
         return                       # reported at group level (non-integer element / no group)
     x0f = np.array(x0, float)
+    orb_i = orbit_u(G, x0)
     outs = []
     for s_, o in enumerate(grp.group):
         start = np.dot(o, x0f)
@@ -426,6 +679,21 @@ def judge_u(case, real, V):
             V.violation(key + ("nonint",), "%s: find_uniq_u returns a non-integer matrix for an integer UBI" % name, case)
             return
         outs.append(ri)
+        if s_ % 5 == 0:
+            # the same start handed over as an integer array / as a nested list of ints
+            for kind, arg in (("int array", np.array(orb_i[s_], dtype=int)), ("nested list", [list(r_) for r_ in orb_i[s_]])):
+                try:
+                    rk = as_int_matrix(sym_u.find_uniq_u(arg, grp))
+                except Exception as e:
+                    if kind == "nested list":
+                        ok_ = "find_uniq_u(nested list) raises"
+                        OBSERVATIONS[ok_] = OBSERVATIONS.get(ok_, 0) + 1
+                        continue
+                    V.violation(key + ("raises",), "%s: find_uniq_u(%s) raises %s: %s" % (name, kind, type(e).__name__, e), case)
+                    continue
+                if rk != ri:
+                    V.violation(key + ("kind",), "%s: find_uniq_u(%s) differs from find_uniq_u(float array) for the same "
+                                "orientation" % (name, kind), case)
         # idempotent: reducing the result again returns it
         r2 = as_int_matrix(sym_u.find_uniq_u(np.array(ri, float), grp))
         if r2 != ri:
@@ -490,17 +758,22 @@ def judge_h(case, real, V):
     outs = []
     for s_, o in enumerate(grp.group):
         start = np.dot(np.round(o).astype(int), hk)
-        for dtype in (int, float):
-            r = sym_u.find_uniq_hkls(start.astype(dtype), grp)
+        for dtype in (int, float, np.int32):
+            arg = start.astype(dtype)
+            keep = arg.copy()
+            r = sym_u.find_uniq_hkls(arg, grp)
             r = np.asarray(r)
             if r.shape != (3, n) or not np.all(r == np.round(r)):
                 V.violation(key + ("shape",), "%s: find_uniq_hkls returns shape %r / non-integers" % (name, r.shape), case)
                 return
+            if not np.array_equal(arg, keep):
+                OBSERVATIONS["find_uniq_hkls modifies its argument"] = OBSERVATIONS.get("find_uniq_hkls modifies its argument", 0) + 1
             r = np.round(r).astype(int)
             if dtype is int:
                 outs.append(r)
             elif not np.array_equal(r, outs[-1]):
-                V.violation(key + ("dtype",), "%s: find_uniq_hkls differs between int and float input" % name, case)
+                V.violation(key + ("dtype",), "%s: find_uniq_hkls differs between int64 and %s input" %
+                            (name, "float64" if dtype is float else "int32"), case)
     # conformance
     bad = []
     for j in range(n):
@@ -522,10 +795,13 @@ def judge_h(case, real, V):
         if len(col) != 1:
             report_clause(V, name, "HklCanonical", "%s: find_uniq_hkls(%r) depends on the starting member: %r" %
                           (name, h, sorted(col)), case, G)
-        kmax = max(hklkey(v) for v in orb)
-        if any(hklkey(v) != kmax for v in col):
-            report_clause(V, name, "AttainsMax", "%s: find_uniq_hkls(%r) is not the orbit member with the largest key" %
-                          (name, h), case, G)
+        if max(abs(x) for v in orb for x in v) <= 499:
+            # where the packed key is an order isomorphism the answer is the LEXICOGRAPHIC maximum (python
+            # tuple order): an expectation that does not mention the base of the key
+            lmax = max(orb)
+            if any(v != lmax for v in col):
+                report_clause(V, name, "AttainsMax", "%s: find_uniq_hkls(%r) = %r is not the lexicographically largest "
+                              "orbit member %r" % (name, h, sorted(col), lmax), case, G)
         for c in case["cells"]:
             A = adj(mm(c, tr(c)))
             q0 = sum(h[i] * mv(A, h)[i] for i in range(3))
@@ -533,6 +809,124 @@ def judge_h(case, real, V):
                 report_clause(V, name, "HklNormKept", "%s: find_uniq_hkls(%r) changes |h|^2 in the reciprocal metric" %
                               (name, h), case, G)
                 break
+
+
+# ---- hkl columns with large entries, input kinds (harness-side family: every column is reduced on its own
+# ---- by find_uniq_hkls, the specification's single-column scan covers each of them) ------------------
+
+HK_JUDGED = ("int64", "int32", "float64")      # 999 999 999 < 2^31, and exact in a double
+HK_OBSERVED = ("int16", "float32")             # the packed key overflows / loses bits: undocumented input kinds
+
+
+def orbit_columns(G, hk):
+    """exact (int64): all orbit members of every column, and per column the lexicographically largest one
+    (|entries| <= 999 < 2048, so (h*4096 + k)*4096 + l orders the triples lexicographically)"""
+    Ga = np.array(G, dtype=np.int64)
+    orb = np.einsum("gij,jn->gin", Ga, hk.astype(np.int64))
+    key = (orb[:, 0, :] * 4096 + orb[:, 1, :]) * 4096 + orb[:, 2, :]
+    idx = np.argmax(key, axis=0)
+    return orb, orb[idx, :, np.arange(hk.shape[1])].T
+
+
+def seeded_hkls(rng, n, lo, hi):
+    """n columns with entries of magnitude lo..hi in at least one place: uniform, 'small h, large +-k' (what a
+    wrong packing base mixes up), boundary values, small"""
+    cols = []
+    for j in range(n):
+        kind = j % 5
+        if kind == 0:
+            h = [int(v) for v in rng.randint(-hi, hi + 1, size=3)]
+        elif kind == 1:
+            b = int(rng.randint(max(lo, 2), hi + 1))
+            h = [int(rng.randint(-3, 4)), b, -b + int(rng.randint(0, 2))]
+        elif kind == 2:
+            h = [int(rng.choice([-1, 1])) * int(rng.randint(max(hi - 2, 0), hi + 1)) for _ in range(3)]
+        elif kind == 3:
+            h = [int(v) for v in rng.randint(-5, 6, size=3)]
+            h[int(rng.randint(3))] = int(rng.choice([-1, 1])) * int(rng.randint(max(lo, 1), hi + 1))
+        else:
+            h = [int(rng.randint(-hi, hi + 1)), int(rng.randint(-40, 41)), int(rng.randint(-hi, hi + 1))]
+        if lo > 0 and max(abs(v) for v in h) < lo:
+            h[int(rng.randint(3))] = int(rng.choice([-1, 1])) * int(rng.randint(lo, hi + 1))
+        cols.append(h)
+    return cols
+
+
+def judge_hbig(case, real, V):
+    """case: name, hkls (n triples), dtype.  Every group element is applied beforehand to the whole array; the
+    real find_uniq_hkls reduces the 3 x n array of the given dtype.  Judged for int64 / int32 / float64: every
+    result column is in the orbit of its column (any magnitude up to 999), and, for columns whose orbit stays
+    within 499, it is the lexicographic maximum of that orbit - from every start.  int16 / float32 input and
+    columns beyond 499 are outside the domain of the hkl clauses (SymGroup_hkl500.cfg): counted, not judged."""
+    import warnings
+    name = case["name"]
+    grp = real.obj[name]
+    G = real.mats[name]
+    if G is None:
+        return
+    key = ("hbig", name)
+    dtype = case["dtype"]
+    hk = np.array(case["hkls"], dtype=np.int64).T.reshape(3, -1)
+    n = hk.shape[1]
+    orb, lex = orbit_columns(G, hk)
+    indom = np.abs(orb).max(axis=(0, 1)) <= 499
+    judged = dtype in HK_JUDGED
+    outs = []
+    for s_ in range(len(G)):
+        start = orb[s_]
+        arg = start.astype(dtype)
+        try:
+            with warnings.catch_warnings():
+                warnings.simplefilter("ignore")
+                with np.errstate(all="ignore"):
+                    r = np.asarray(sym_u.find_uniq_hkls(arg, grp))
+        except Exception as e:
+            if judged:
+                V.violation(key + ("raises",), "%s: find_uniq_hkls(%s array 3x%d) raises %s: %s" %
+                            (name, dtype, n, type(e).__name__, e), case)
+            else:
+                ok_ = "find_uniq_hkls %s: raises" % dtype
+                OBSERVATIONS[ok_] = OBSERVATIONS.get(ok_, 0) + 1
+            return
+        if r.shape != (3, n) or not np.all(np.isfinite(r.astype(float))) or not np.all(r == np.round(r)):
+            if judged:
+                V.violation(key + ("shape",), "%s: find_uniq_hkls(%s array 3x%d) returns shape %r / non-integers" %
+                            (name, dtype, n, r.shape), case)
+                return
+            OBSERVATIONS["find_uniq_hkls %s: malformed result" % dtype] = OBSERVATIONS.get("find_uniq_hkls %s: malformed result" % dtype, 0) + 1
+            return
+        outs.append(np.round(r).astype(np.int64))
+    inorb = np.ones(n, bool)
+    islex = np.ones(n, bool)
+    same = np.ones(n, bool)
+    for ri in outs:
+        inorb &= (orb == ri[None, :, :]).all(axis=1).any(axis=0)
+        islex &= (ri == lex).all(axis=0)
+        same &= (ri == outs[0]).all(axis=0)
+    if judged:
+        if not inorb.all():
+            j = int(np.argmin(inorb))
+            report_clause(V, name, "InOrbit", "%s: find_uniq_hkls(%s array): column %r is reduced to a triple outside its "
+                          "orbit" % (name, dtype, [int(v) for v in hk[:, j]]), case, G)
+        bad = indom & ~islex
+        if bad.any():
+            j = int(np.argmax(bad))
+            got = sorted(set(tuple(int(v) for v in ri[:, j]) for ri in outs))
+            report_clause(V, name, "AttainsMax" if same[j] else "HklCanonical",
+                          "%s: find_uniq_hkls(%s array, %d columns): hkl %r reduces to %r, lexicographically largest orbit "
+                          "member: %r (%d of %d columns differ)" %
+                          (name, dtype, n, [int(v) for v in hk[:, j]], got, [int(v) for v in lex[:, j]], int(bad.sum()), n),
+                          case, G)
+        out_dom = ~indom
+        if out_dom.any():
+            k = "find_uniq_hkls columns beyond 499 (outside the domain): reduced / start-dependent"
+            old = OBSERVATIONS.get(k, [0, 0])
+            OBSERVATIONS[k] = [old[0] + int(out_dom.sum()), old[1] + int((out_dom & ~same).sum())]
+    else:
+        k = "find_uniq_hkls %s input (undocumented kind): columns / not the int64 answer" % dtype
+        old = OBSERVATIONS.get(k, [0, 0])
+        OBSERVATIONS[k] = [old[0] + n, old[1] + int((~(islex & inorb) & indom).sum())]
+    return int(indom.sum())
 
 
 # ---- generic float orientations ------------------------------------------------------------
@@ -577,53 +971,120 @@ def close(a, b, scale):
     return bool(np.all(np.abs(np.asarray(a) - np.asarray(b)) <= 1e-9 * scale + 1e-12))
 
 
+INPUT_KINDS = ("array", "list", "fortran", "strided", "func", "debug")
+
+
+def call_find_uniq_u(m, grp, how):
+    """the real find_uniq_u on the 3x3 float matrix m, handed over as `how` says; the argument must not change"""
+    a = np.array(m, float)
+    if how == "list":
+        arg = a.tolist()
+        keep = copy.deepcopy(arg)
+        r = sym_u.find_uniq_u(arg, grp)
+        changed = arg != keep
+    else:
+        if how == "fortran":
+            arg = np.asfortranarray(a)
+        elif how == "strided":
+            big = np.zeros((6, 9))
+            big[::2, ::3] = a
+            arg = big[::2, ::3]
+        else:
+            arg = a.copy()
+        keep = np.array(arg, copy=True)
+        if how == "func":
+            r = sym_u.find_uniq_u(arg, grp, 0, np.trace)
+        elif how == "debug":
+            with quiet():
+                r = sym_u.find_uniq_u(arg, grp, debug=1)
+        else:
+            r = sym_u.find_uniq_u(arg, grp)
+        changed = not np.array_equal(arg, keep)
+    if changed:
+        OBSERVATIONS["find_uniq_u modifies its argument"] = OBSERVATIONS.get("find_uniq_u modifies its argument", 0) + 1
+    return np.asarray(r, dtype=float)
+
+
 def judge_float(case, real, V):
-    """case: name, ubi (float 3x3).  Ties have measure zero; a case whose two best traces are closer
-    than the margin is skipped (returns 'skipped')."""
+    """case: name, ubi (float 3x3), optional kinds (how each orbit member is handed over).  Every group element
+    is applied beforehand.  Ties have measure zero; the two best traces of the orbit decide what is judged:
+      separated by more than 1e-10 relative (rounding is 1e-15): every clause, the canonical one included;
+      closer ('near tie', returns 'neartie'): the result may be either of the tying members, so the canonical
+        clause is not judged and idempotence only in the weak form - but every result is still a member of the
+        orbit, has the maximal trace up to the tolerance, keeps the metric and indexes the same lattice."""
     name = case["name"]
     grp = real.obj[name]
     G = real.mats[name]
     key = ("float", name)
-    if grp is None:
+    if grp is None or G is None:
         return "ok"
     ubi = np.array(case["ubi"], float)
     scale = float(np.abs(ubi).max()) * 3
-    orbit = [np.dot(o, ubi) for o in grp.group]
+    Gf = [np.array(o, float) for o in G]           # exact integers: the orbit does not depend on the code under test
+    orbit = [np.dot(o, ubi) for o in Gf]
     t = sorted((float(np.trace(m)) for m in orbit), reverse=True)
-    if len(t) > 1 and t[0] - t[1] <= 1e-6 * scale:
-        return "skipped"
+    near = len(t) > 1 and t[0] - t[1] <= 1e-10 * scale
+    kinds = case.get("kinds") or ["array"]
     met0 = np.dot(ubi, ubi.T)
-    outs = [np.asarray(sym_u.find_uniq_u(m, grp)) for m in orbit]
+    outs = []
+    for k, m in enumerate(orbit):
+        how = kinds[k % len(kinds)]
+        try:
+            outs.append(call_find_uniq_u(m, grp, how))
+        except Exception as e:
+            if how == "list":
+                # a nested list is not a documented input kind: counted, and the member is handed over as an array
+                ok_ = "find_uniq_u(nested list) raises"
+                OBSERVATIONS[ok_] = OBSERVATIONS.get(ok_, 0) + 1
+                try:
+                    outs.append(call_find_uniq_u(m, grp, "array"))
+                    continue
+                except Exception as e2:
+                    e = e2
+            V.violation(key + ("raises",), "%s: find_uniq_u(%s 3x3 float orientation) raises %s: %s" %
+                        (name, how, type(e).__name__, e), case)
+            return "ok"
+    if any(o.shape != (3, 3) or not np.all(np.isfinite(o)) for o in outs):
+        V.violation(key + ("shape",), "%s: find_uniq_u returns a malformed matrix" % name, case)
+        return "ok"
     ref = outs[0]
-    if not all(close(o, ref, scale) for o in outs):
+    if not near and not all(close(o, ref, scale) for o in outs):
         report_clause(V, name, "CanonicalIfUnique", "%s: generic float orientation: orbit members reduce to different "
-                      "matrices (best traces separated by %.3g)" % (name, t[0] - t[1] if len(t) > 1 else 0.0), case, G)
-    if not any(close(ref, m, scale) for m in orbit):
-        report_clause(V, name, "InOrbit", "%s: generic float orientation: result is not an orbit member" % name, case, G)
-    if abs(float(np.trace(ref)) - t[0]) > 1e-9 * scale + 1e-12:
-        report_clause(V, name, "AttainsMax", "%s: generic float orientation: result does not have the largest trace" % name, case, G)
-    if not close(np.dot(ref, ref.T), met0, scale * scale):
-        report_clause(V, name, "MetricKept", "%s: find_uniq_u changes the cell parameters of a conforming cell "
-                      "(metric tensor differs)" % name, case, G)
-    if not close(sym_u.find_uniq_u(ref, grp), ref, scale):
-        report_clause(V, name, "Idempotent", "%s: generic float orientation: reduction not idempotent" % name, case, G)
-    # which g-vectors are indexed: T = res . inv(ubi) integer unimodular; lattice points stay integer hkl,
-    # half-integer points stay non-integer
-    T = np.dot(ref, np.linalg.inv(ubi))
-    if not close(T, np.round(T), 3.0) or abs(round(float(np.linalg.det(np.round(T)))) - 1) != 0:
-        report_clause(V, name, "SameLattice", "%s: generic float orientation: result . inv(ubi) is not integer unimodular" % name, case, G)
-    else:
-        ub = np.linalg.inv(ubi)
-        hk = np.array(list(itertools.product((-2, -1, 0, 1, 2), repeat=3)), float).T
-        gv = np.dot(ub, hk)
-        h2 = np.dot(ref, gv)
-        if not close(h2, np.round(h2), 6.0):
-            report_clause(V, name, "SameLattice", "%s: reduced orientation no longer indexes the lattice's g-vectors" % name, case, G)
-        gv2 = np.dot(ub, hk + 0.5)
-        h3 = np.dot(ref, gv2)
-        if np.any(np.all(np.abs(h3 - np.round(h3)) < 1e-6, axis=0)):
-            report_clause(V, name, "SameLattice", "%s: reduced orientation indexes g-vectors the input did not" % name, case, G)
-    return "ok"
+                      "matrices (best traces separated by %.3g, scale %.3g)" % (name, t[0] - t[1] if len(t) > 1 else 0.0, scale), case, G)
+    ub = np.linalg.inv(ubi)
+    hk = np.array(list(itertools.product((-2, -1, 0, 1, 2), repeat=3)), float).T
+    for o in (outs if near else [ref]):
+        if not any(close(o, m, scale) for m in orbit):
+            report_clause(V, name, "InOrbit", "%s: float orientation: result is not an orbit member" % name, case, G)
+        if abs(float(np.trace(o)) - t[0]) > 1e-9 * scale + 1e-12:
+            report_clause(V, name, "AttainsMax", "%s: float orientation: result does not have the largest trace "
+                          "(%.12g, orbit maximum %.12g)" % (name, float(np.trace(o)), t[0]), case, G)
+        if not close(np.dot(o, o.T), met0, scale * scale):
+            report_clause(V, name, "MetricKept", "%s: find_uniq_u changes the cell parameters of a conforming cell "
+                          "(metric tensor differs)" % name, case, G)
+        again = call_find_uniq_u(o, grp, "array")
+        if near:
+            # weak idempotence: reducing the result again stays among the (tying) maximal members
+            if not any(close(again, m, scale) for m in orbit) or abs(float(np.trace(again)) - t[0]) > 1e-9 * scale + 1e-12:
+                report_clause(V, name, "Idempotent", "%s: near-tie float orientation: reducing the result again leaves "
+                              "the maximal members of the orbit" % name, case, G)
+        elif not close(again, o, scale):
+            report_clause(V, name, "Idempotent", "%s: generic float orientation: reduction not idempotent" % name, case, G)
+        # which g-vectors are indexed: T = res . inv(ubi) integer unimodular; lattice points stay integer hkl,
+        # half-integer points stay non-integer
+        T = np.dot(o, ub)
+        if not close(T, np.round(T), 3.0) or abs(round(float(np.linalg.det(np.round(T)))) - 1) != 0:
+            report_clause(V, name, "SameLattice", "%s: float orientation: result . inv(ubi) is not integer unimodular" % name, case, G)
+        else:
+            gv = np.dot(ub, hk)
+            h2 = np.dot(o, gv)
+            if not close(h2, np.round(h2), 6.0):
+                report_clause(V, name, "SameLattice", "%s: reduced orientation no longer indexes the lattice's g-vectors" % name, case, G)
+            gv2 = np.dot(ub, hk + 0.5)
+            h3 = np.dot(o, gv2)
+            if np.any(np.all(np.abs(h3 - np.round(h3)) < 1e-6, axis=0)):
+                report_clause(V, name, "SameLattice", "%s: reduced orientation indexes g-vectors the input did not" % name, case, G)
+    return "neartie" if near else "ok"
 
 
 # ---- users ---------------------------------------------------------------------------------
@@ -707,10 +1168,66 @@ def judge_uniq_grain_list(case, real, V):
                        "grain -> nfound %r, expected %r" % (name, len(starts), nf, exp), case)
 
 
+def judge_users_float(case, real, V):
+    """the users on a generic float orientation.  case: name, sym (the string handed to the user: the name, or the
+    alias trigonalP), ubi, other (an orientation more than 1 degree away from every symmetry image), order.
+      refinegrains.makeuniq(sym): every orbit member (ubisread and grains) becomes ONE matrix, the orbit member
+        with the largest trace (computed here from the exact integer operators);
+      grid_index_parallel.uniq_grain_list(sym, toldist=0.5, tolangle=0.05): |G| symmetry images at one position
+        are one grain found |G| times; two of the same images 5 units away (beyond toldist) are ANOTHER grain
+        found twice; the other orientation at the first position is a third grain."""
+    from ImageD11 import refinegrains, grain, grid_index_parallel
+    name = case["name"]
+    sym = case.get("sym", name)
+    G = real.mats[name]
+    if G is None:
+        return "ok"
+    ubi = np.array(case["ubi"], float)
+    scale = float(np.abs(ubi).max()) * 3
+    orbit = [np.dot(np.array(o, float), ubi) for o in G]
+    tr_ = [float(np.trace(m)) for m in orbit]
+    t = sorted(tr_, reverse=True)
+    if len(t) > 1 and t[0] - t[1] <= 1e-6 * scale:
+        return "neartie"
+    exp = orbit[int(np.argmax(tr_))]
+    if sym == name:
+        with quiet():
+            o = refinegrains.refinegrains()
+        for k, m in enumerate(orbit):
+            o.ubisread[k] = np.array(m, float)
+            o.grains[(k, "scan")] = grain.grain(np.array(m, float), translation=[0., 0., 0.])
+        with quiet():
+            o.makeuniq(sym)
+        got = [np.asarray(o.ubisread[k], float) for k in range(len(orbit))] + \
+              [np.asarray(o.grains[(k, "scan")].ubi, float) for k in range(len(orbit))]
+        if not all(g.shape == (3, 3) and close(g, exp, scale) for g in got):
+            user_violation(V, real, name, ("makeuniq", name, "float"), "refinegrains.makeuniq(%r) on a generic float "
+                           "orientation: the %d symmetry-equivalent grains do not all become the orbit member with the "
+                           "largest trace" % (sym, len(orbit)), case)
+    far = np.array([5.0, 0.0, 0.0])
+    t0 = np.array([1.0, 2.0, 3.0])
+    gl = [grain.grain(np.array(m, float), translation=t0.copy()) for m in orbit]
+    gl.append(grain.grain(np.array(orbit[0], float), translation=t0 + far))
+    gl.append(grain.grain(np.array(orbit[-1], float), translation=t0 + far))
+    gl.append(grain.grain(np.array(case["other"], float), translation=t0.copy()))
+    gl = [gl[k] for k in case["order"]]
+    with quiet():
+        ul = grid_index_parallel.uniq_grain_list(sym, 0.5, 0.05, gl)
+    nf = sorted(int(g.nfound) for g in ul.uniqgrains)
+    want = sorted([len(orbit), 2, 1])
+    if nf != want:
+        user_violation(V, real, name, ("uniq_grain_list", name, "float"), "uniq_grain_list(%r): %d symmetry images, two "
+                       "of them again 5 units away, one other orientation -> nfound %r, expected %r" %
+                       (sym, len(orbit), nf, want), case)
+    return "ok"
+
+
 def judge_pbp(case, real, V):
     """sinograms.point_by_point.idxpoint reduces every indexed ubi with the group chosen by the
-    initializer's symmetry string (line 1809).  The indexer, the peak selection and the unique-peak
-    counter are stubbed (module-level callables wrapped from the harness); the call site is real.
+    initializer's symmetry string (line 1809).  The real initializer() is called with the symmetry string
+    (its readers of the parameter file / unit cell / column file are stubbed); the indexer, the peak
+    selection and the unique-peak counter are stubbed (module-level callables wrapped from the harness);
+    the call sites (1871, 1809) are real.
     case: name, x0, res, s (which orbit member the stub indexer 'finds')"""
     pbp = _pbp()
     name = case["name"]
@@ -737,18 +1254,36 @@ def judge_pbp(case, real, V):
     nthreads = cImageD11.cimaged11_omp_get_max_threads()
     saved = (pbp.ImageD11.indexing.indexer, pbp.geometry.dtyimask_from_step_sincos, pbp.get_local_gv, pbp.hkluniq,
              pbp.symglobal, pbp.ucglobal, pbp.parglobal)
+    saved2 = (pbp.colglobal, pbp.parameters, pbp.unitcell, pbp.threadpoolctl, pbp.ImageD11.columnfile.mmap_h5colf,
+              pbp.ImageD11.indexing.loglevel)
 
     class Par(object):
         def get(self, k):
             return 0.3
+
+    class Col(object):
+        isel = np.ones(4)
+
+    class Stub(object):
+        def __init__(self, **kw):
+            self.__dict__.update(kw)
     try:
         pbp.ImageD11.indexing.indexer = FakeIndexer
         pbp.geometry.dtyimask_from_step_sincos = lambda *a, **k: np.ones(4, bool)
         pbp.get_local_gv = lambda *a, **k: (np.zeros((4, 3)), np.zeros(4), np.zeros(4), np.zeros(4))
         pbp.hkluniq = lambda ubi, *a, **k: (10, 10)
-        pbp.symglobal = sym_u.getgroup(name)()          # what initializer() does with its symmetry argument
-        pbp.ucglobal = None
-        pbp.parglobal = Par()
+        # the REAL initializer() chooses the group from the symmetry string (the readers of the parameter file,
+        # the unit cell and the column file are stubbed, the BLAS thread limit is not touched)
+        pbp.parameters = Stub(read_par_file=lambda *a, **k: Par())
+        pbp.unitcell = Stub(unitcell_from_parameters=lambda *a, **k: None)
+        pbp.threadpoolctl = None
+        pbp.ImageD11.columnfile.mmap_h5colf = lambda *a, **k: Col()
+        pbp.symglobal = None
+        with quiet():
+            pbp.initializer("nofile.par", "phase", name, "nofile.h5", loglevel=saved2[5])
+        if pbp.symglobal is None or not hasattr(pbp.symglobal, "group"):
+            V.violation(("pbp", name), "point_by_point.initializer(symmetry=%r) does not set the symmetry group" % name, case)
+            return
         z = np.zeros(4)
         with quiet():
             out = pbp.idxpoint(0, 0, np.ones(4, bool), z, z, z + 1, np.zeros(4, int), z, z, z, z,
@@ -756,6 +1291,8 @@ def judge_pbp(case, real, V):
     finally:
         (pbp.ImageD11.indexing.indexer, pbp.geometry.dtyimask_from_step_sincos, pbp.get_local_gv, pbp.hkluniq,
          pbp.symglobal, pbp.ucglobal, pbp.parglobal) = saved
+        (pbp.colglobal, pbp.parameters, pbp.unitcell, pbp.threadpoolctl, pbp.ImageD11.columnfile.mmap_h5colf,
+         pbp.ImageD11.indexing.loglevel) = saved2
         cImageD11.cimaged11_omp_set_num_threads(nthreads)
     got = sorted(tup(as_int_matrix(g[2]) or []) for g in out)
     exp = sorted(tup(case["res"][k]) for k in case["s"])
@@ -764,23 +1301,36 @@ def judge_pbp(case, real, V):
                     "reductions of the indexed ubis" % name, case)
 
 
-JUDGES = {"group": judge_group, "u": judge_u, "h": judge_h, "float": judge_float, "makeuniq": judge_makeuniq,
-          "uniq_grain_list": judge_uniq_grain_list, "pbp": judge_pbp}
+JUDGES = {"conc": judge_conc, "hbig": judge_hbig, "group": judge_group, "u": judge_u, "h": judge_h, "float": judge_float, "makeuniq": judge_makeuniq,
+          "uniq_grain_list": judge_uniq_grain_list, "pbp": judge_pbp, "users_float": judge_users_float}
 
 
 # ------------------------------------------------------------------------------------------
 # TLC runs
 
-def cfg_variant(base, names=None, fixed=False, drop=(), tag="v"):
+def enc_hkl(h):
+    """a configuration file has neither tuples nor negative numbers: (h, k, l) is {1000+h, 11000+k, 21000+l}"""
+    return "{%d, %d, %d}" % (1000 + h[0], 11000 + h[1], 21000 + h[2])
+
+
+def cfg_variant(base, names=None, fixed=False, drop=(), tag="v", bighkls=None, pairs=None):
     """static cfg -> (possibly) a generated variant in scratch: subset of Names, TrigonalFixed, dropped
-    invariants.  Returns the path to use."""
+    invariants, seeded hkl added to the static BigHkls.  Returns the path to use."""
     src = os.path.join(common.SPECS, base)
-    if names is None and fixed and not drop:
+    if names is None and fixed and not drop and not bighkls and not pairs:
         return src                       # the static files describe the repaired trigonal()
     out = []
     for line in open(src):
         if line.strip().startswith("Names =") and names is not None:
             line = "  Names = {%s}\n" % ", ".join('"%s"' % n for n in names)
+        if line.strip().startswith("ConcPairs =") and pairs:
+            line = "  ConcPairs = {%s}\n" % ", ".join("{%s}" % ", ".join('"%s"' % n for n in pr) for pr in pairs)
+        if line.strip().startswith("BigHkls =") and bighkls:
+            old = line.strip()[len("BigHkls ="):].strip()
+            if not (old.startswith("{") and old.endswith("}")):
+                raise common.MachineryError("cannot extend %r" % line)
+            inner = old[1:-1].strip()
+            line = "  BigHkls = {%s}\n" % ", ".join(([inner] if inner else []) + [enc_hkl(h) for h in bighkls])
         if line.strip().startswith("TrigonalFixed ="):
             line = "  TrigonalFixed = %s\n" % ("TRUE" if fixed else "FALSE")
         if line.startswith("INVARIANT ") and line.split()[1] in drop:
@@ -881,7 +1431,7 @@ def confirm_counterexample(inv, st, real, V, cells_of):
     return V.total() != before
 
 
-def run_main_config(chk, base, real, V, workers, coverage, timeout, cells_of):
+def run_main_config(chk, base, real, V, workers, coverage, timeout, cells_of, bighkls=None):
     """main configuration with the counterexample protocol: a violated invariant is replayed on the real
     code (reported there), the offending group is then explored alone without that invariant, the other
     groups without the offending group."""
@@ -896,7 +1446,8 @@ def run_main_config(chk, base, real, V, workers, coverage, timeout, cells_of):
         rounds += 1
         if rounds > 14:
             raise common.MachineryError("counterexample protocol does not converge")
-        cfg = cfg_variant(base, names=None if nm == NAMES else nm, fixed=fixed, drop=drop, tag="m%d" % rounds)
+        cfg = cfg_variant(base, names=None if nm == NAMES else nm, fixed=fixed, drop=drop, tag="m%d" % rounds,
+                          bighkls=bighkls)
         res, recs = tlc_records(cfg, base, workers, coverage, timeout)
         chk.add_tlc("SymGroup %s %s%s" % (base[9:-4], label, " TrigonalFixed" if fixed else ""), res)
         for k, v in res.coverage.items():
@@ -928,6 +1479,95 @@ def run_main_config(chk, base, real, V, workers, coverage, timeout, cells_of):
 
 # ------------------------------------------------------------------------------------------
 
+def run_conc_section(chk, real, V, model_group, model_gens, thorough, fixed):
+    """TLC: every interleaving of the steps of two concurrent first calls (SymGroup_conc / _conct), the
+    publish-before-built variant as the invariant's teeth (SymGroup_early); then the real generate_group
+    under deterministic two-thread schedules in fresh interpreters, judged by judge_conc."""
+    base = "SymGroup_conct.cfg" if thorough else "SymGroup_conc.cfg"
+    res, recs = tlc_records(cfg_variant(base, fixed=fixed, tag="k"), base, WORKERS, thorough, 7200 if thorough else 1500)
+    chk.add_tlc("SymGroup %s (two threads)" % base[9:-4], res,
+                require_cover=("Contains", "Get", "New", "AddItemC", "MultC", "Publish", "Ret"))
+    if res.violated or not res.finished:
+        raise common.MachineryError("SymGroup two-thread model: %r %r (the model of generate_group as written "
+                                    "violates its own invariant)" % (res.violated, res.error))
+    crecs = [r for r in recs if r.get("kind") == "conc"]
+    if not crecs:
+        raise common.MachineryError("vacuity: the two-thread model emitted no terminal state")
+    early = common.run_tlc("SymGroup", cfg_variant("SymGroup_early.cfg", fixed=fixed, tag="e"), workers=1, timeout=600)
+    chk.add_tlc("SymGroup early (publish before built: HeldClosedAlways expected to be violated)", early)
+    if "HeldClosedAlways" not in early.violated:
+        raise common.MachineryError("SymGroup_early: TLC did not find the caller holding an unclosed group")
+    by_pair = {}
+    for r in crecs:
+        by_pair.setdefault(frozenset(r["names"]), []).append(r)
+    labels = {n: sim_labels(model_gens[n]) for n in model_gens}
+    batches = []
+    for n in NAMES:
+        if frozenset([n]) in by_pair and n in labels and n not in real.timeout:
+            for b in conc_jobs(n, labels[n], rng_for("conc", n), thorough):
+                batches.append(b)
+    cross = sorted(tuple(sorted(k)) for k in by_pair if len(k) == 2)
+    pend = []                             # quick: three pairs share an interpreter (the first pair is its first use)
+    for (n1, n2) in cross:
+        if n1 in labels and n2 in labels and n1 not in real.timeout and n2 not in real.timeout:
+            pend += conc_pair_jobs(n1, n2, labels[n1], labels[n2], rng_for("concpair", n1, n2), thorough)
+            if thorough or len(set(tuple(sorted(j["names"])) for j in pend)) >= 3:
+                batches.append(pend)
+                pend = []
+    if pend:
+        batches.append(pend)
+    njobs = 0
+    nfresh = 0
+    seen_classes = {}
+    skipped = 0
+    for jobs in batches:
+        results = run_conc_child(jobs)
+        skipped += len(jobs) - len(results)
+        for job, result in zip(jobs, results):
+            names = job["names"]
+            case = {"kind": "conc", "names": names, "policy": job["policy"],
+                    "closure": {n: model_group[n] for n in set(names)}, "model": by_pair[frozenset(names)]}
+            out = guarded(judge_conc, case, real, V, result=result)
+            njobs += 1
+            nfresh += 1 if result.get("first_in_process") else 0
+            chk.traces += 1
+            chk.case(("conc", tuple(names), json.dumps(job["policy"], sort_keys=True)))
+            if isinstance(out, tuple):
+                seen_classes.setdefault(tuple(sorted(set(names))), [set(), out[2]])[0].add(out[1])
+            if len(set(names)) == 1 and job["policy"]["kind"] == "cut" and result.get("first_in_process"):
+                chk.sample({"two_threads": names, "schedule": job["policy"],
+                            "dictionary_accesses": real_sig(result)[0], "hook_points": result.get("points")}, limit=5)
+    cls = {"+".join(k): "%d of %d" % (len(v[0]), v[1]) for k, v in seen_classes.items()}
+    chk.notes["conc_schedules_replayed"] = njobs
+    chk.notes["conc_fresh_interpreters"] = len(batches)
+    chk.notes["conc_first_use_schedules"] = nfresh
+    chk.notes["conc_jobs_not_run_after_a_stuck_one"] = skipped
+    chk.notes["conc_terminal_classes_exercised"] = cls
+    if V.n() == 0:
+        # vacuity (only meaningful on a conforming tree): a hit class and a both-miss class for every name
+        for n in NAMES:
+            k = (n,)
+            if frozenset([n]) in by_pair and (k not in seen_classes or len(seen_classes[k][0]) < 2):
+                raise common.MachineryError("vacuity: the schedules for %s reached %s of the specification's "
+                                            "terminal classes" % (n, cls.get(n)))
+
+
+def guarded(judge, case, real, V, **kw):
+    """an exception of the code under test inside a judge is a verdict about that code, not a machinery error"""
+    try:
+        return judge(case, real, V, **kw)
+    except common.MachineryError:
+        raise
+    except Exception as e:
+        import traceback
+        tb = traceback.extract_tb(sys.exc_info()[2])
+        where = "%s:%d" % (os.path.basename(tb[-1].filename), tb[-1].lineno) if tb else "?"
+        V.violation(("raises", case.get("kind"), case.get("name") or "+".join(case.get("names", []))),
+                    "%s case for %s: %s: %s (at %s)" % (case.get("kind"), case.get("name") or case.get("names"),
+                                                       type(e).__name__, e, where), case)
+        return "raised"
+
+
 def rng_for(*key):
     import hashlib
     h = hashlib.sha256(repr((common.seed(),) + key).encode()).digest()
@@ -935,13 +1575,25 @@ def rng_for(*key):
 
 
 def run(tier, replay=None):
+    global SHADOW
     chk = common.Check(PROP, tier)
     shadow = common.build_shadow("normal")
     common.use_shadow(shadow)
+    SHADOW = shadow
     with quiet():
         _imports(with_pbp=(tier == "thorough" and not replay))
         real = Real()
     V = Verdicts(chk)
+    try:
+        return _run(chk, real, V, tier, replay)
+    except BaseException:
+        # a machinery error after violations were collected: the violations are the verdict (harness/run.py)
+        if not chk.finished and V.n():
+            V.flush()
+        raise
+
+
+def _run(chk, real, V, tier, replay):
     for n in real.timeout:
         V.violation(("group", n, "terminates"), "sym_u.%s(): makegroup does not return within %d s (the group "
                     "generated is not finite?)" % (n, GROUP_TIME_LIMIT), {"kind": "group", "name": n, "calls": [n],
@@ -955,6 +1607,7 @@ def run(tier, replay=None):
     fixed = real.trigonal_fixed()
     cache_cfgs = ["SymGroup_cache.cfg"] + (["SymGroup_cache3.cfg"] if thorough else [])
     model_group = {}
+    model_gens = {}
     cells = {}
     nbeh = 0
     for base in cache_cfgs:
@@ -971,6 +1624,7 @@ def run(tier, replay=None):
         for r in recs:
             if len(r["calls"]) == 1:
                 model_group[r["name"]] = r["group"]
+                model_gens[r["name"]] = r["gens"]
                 cells[r["name"]] = r["cells"]
         for r in recs:
             r["earlier"] = {n: model_group[n] for n in r["calls"][:-1] if n in model_group}
@@ -983,9 +1637,16 @@ def run(tier, replay=None):
     chk.notes["cache_behaviours_replayed"] = nbeh
     cells_of = lambda n: cells.get(n, [])
 
+    # ---- 1b. the symcache protocol when the first calls come from two threads ---------------------
+    if model_group:
+        run_conc_section(chk, real, V, model_group, model_gens, thorough, fixed)
+
     # ---- 2. orbits (mode A) -------------------------------------------------------------------
     base = "SymGroup_t.cfg" if thorough else "SymGroup_q.cfg"
-    records, cover = run_main_config(chk, base, real, V, WORKERS, thorough, 1500 if thorough else 400, cells_of)
+    # seeded hkl with entries up to 499 join the static ones of the configuration (constant BigHkls)
+    big = [tuple(h) for h in seeded_hkls(rng_for("bighkl"), 40 if thorough else 8, 30, 499)]
+    records, cover = run_main_config(chk, base, real, V, WORKERS, thorough, 3000 if thorough else 900, cells_of,
+                                     bighkls=sorted(set(big)))
     if thorough:
         for a in ("CallMiss", "AddGen", "MultiplyNew", "MultiplyOld", "ChooseUbi", "ChooseHkl", "ScanKeep", "ScanSkip"):
             if cover.get(a, (0, 0))[1] == 0:
@@ -1025,6 +1686,9 @@ def run(tier, replay=None):
             chk.case(("h", n, tuple(r["x0"])), nontrivial=r["x0"] != [0, 0, 0])
     chk.notes["orbit_records"] = {n: {"ubis": v[0], "tie_orbits": v[1]} for n, v in per.items()}
     chk.notes["hkl_records"] = len(hrecs)
+    chk.notes["hkl_records_beyond_the_box"] = len([r for r in hrecs if max(abs(v) for v in r["x0"]) > 4])
+    if chk.notes["hkl_records_beyond_the_box"] == 0:
+        raise common.MachineryError("vacuity: no hkl record with large entries was emitted")
     if not urecs or not hrecs or len(grecs) < 1:
         raise common.MachineryError("vacuity: no orbit records emitted")
     if nties == 0 or nties == len(urecs):
@@ -1072,9 +1736,72 @@ def run(tier, replay=None):
             chk.case(("user", n, tup(r["x0"])))
     chk.notes["user_route_calls"] = nuser
 
-    # ---- 5. generic float orientations ----------------------------------------------------------
+    # ---- 4b. users on generic float orientations (far-apart grain, alias trigonalP) ---------------
+    nuf = 0
+    for n in NAMES:
+        G = real.mats[n]
+        if G is None:
+            continue
+        rs_ = rng_for("users_float", n)
+        got = 0
+        tries = 0
+        while got < (6 if thorough else 2) and tries < 40:
+            tries += 1
+            cell = FLOAT_CELLS[n][tries % len(FLOAT_CELLS[n])]
+            ubi = np.dot(cell_rows(cell), quat_matrix(rs_.normal(size=4)))
+            for _ in range(20):
+                other = np.dot(ubi, quat_matrix(rs_.normal(size=4)))
+                if misorientation_deg(G, ubi, other) > 1.0:
+                    break
+            else:
+                continue
+            sym = "trigonalP" if (n == "rhombohedralP" and got % 2 == 1) else n
+            case = {"kind": "users_float", "name": n, "sym": sym, "cell": list(cell), "ubi": ubi.tolist(),
+                    "other": other.tolist(), "order": [int(v) for v in rs_.permutation(len(G) + 3)]}
+            if guarded(judge_users_float, case, real, V) == "neartie":
+                continue
+            got += 1
+            nuf += 1
+            chk.case(("users_float", n, got))
+    chk.notes["user_route_calls_float"] = nuf
+
+    # ---- 4c. hkl arrays: large entries, many columns, input kinds ---------------------------------
+    nbig = {}
+    sens = 0
+    for n in NAMES:
+        if real.mats[n] is None:
+            continue
+        rs_ = rng_for("hbig", n)
+        plan = [("int64", 1000 if n != "cubic" or thorough else 600, 1, 499), ("int64", 1, 100, 499), ("int32", 200, 1, 499),
+                ("float64", 200, 1, 499), ("int16", 100, 30, 499), ("float32", 100, 17, 499), ("int64", 100, 500, 999),
+                ("int32", 60, 500, 999)]
+        for dtype, ncol, lo, hi in plan:
+            cols = seeded_hkls(rs_, ncol, lo, hi)
+            if hi > 499 and n in ("hexagonal", "trigonal"):
+                cols[0] = [1, -3, 500]                       # the tie of SymGroup_hkl500.cfg
+            case = {"kind": "hbig", "name": n, "dtype": dtype, "hkls": cols}
+            guarded(judge_hbig, case, real, V)
+            key = "%s %s" % (dtype, "<=499" if hi <= 499 else "500..999")
+            nbig[key] = nbig.get(key, 0) + ncol
+            chk.case(("hbig", n, dtype, ncol, hi))
+            chk.traces += 1
+            if dtype == "int64" and hi <= 499 and ncol > 1:
+                # vacuity: columns where another packing base (512) would choose a different orbit member
+                hk = np.array(cols, dtype=np.int64).T
+                orb, lex = orbit_columns(real.mats[n], hk)
+                k512 = (orb[:, 0, :] * 512 + orb[:, 1, :]) * 512 + orb[:, 2, :]
+                alt = orb[np.argmax(k512, axis=0), :, np.arange(hk.shape[1])].T
+                sens += int((alt != lex).any(axis=0).sum())
+    chk.notes["hkl_array_columns"] = nbig
+    chk.notes["hkl_columns_sensitive_to_the_packing_base"] = sens
+    if sens == 0 and V.n() == 0:
+        raise common.MachineryError("vacuity: no seeded hkl column distinguishes the packing base")
+
+    # ---- 5. float orientations: generic, scaled cells 1 A .. 1e3 A, input kinds, near ties ---------
     nfl = 0
-    nskip = 0
+    nnear = 0
+    kinds_used = {}
+    scales_used = {}
     for n in NAMES:
         rs_ = rng_for("float", n)
         want = 60 if thorough else 12
@@ -1083,30 +1810,76 @@ def run(tier, replay=None):
         while got < want and tries < 10 * want:
             tries += 1
             cell = FLOAT_CELLS[n][tries % len(FLOAT_CELLS[n])]
+            sc = (1.0, 0.25, 100.0)[tries % 3]
+            cell = tuple(v * sc for v in cell[:3]) + tuple(cell[3:])
             ubi = np.dot(cell_rows(cell), quat_matrix(rs_.normal(size=4)))
-            case = {"kind": "float", "name": n, "cell": list(cell), "ubi": ubi.tolist()}
-            if judge_float(case, real, V) == "skipped":
-                nskip += 1
+            kinds = [INPUT_KINDS[int(v)] for v in rs_.randint(len(INPUT_KINDS), size=4)]
+            case = {"kind": "float", "name": n, "cell": list(cell), "ubi": ubi.tolist(), "kinds": kinds}
+            if guarded(judge_float, case, real, V) == "neartie":
+                nnear += 1
                 continue
             got += 1
             nfl += 1
+            for k in kinds:
+                kinds_used[k] = kinds_used.get(k, 0) + 1
+            scales_used[str(sc)] = scales_used.get(str(sc), 0) + 1
             chk.case(("float", n, got))
+    # near ties: exact tie orientations of the specification's records turned by 0, 1e-13 ... 1e-3 rad
+    nperturbed = {"neartie": 0, "ok": 0}
+    for n in NAMES:
+        ties = [r for r in urecs if r["name"] == n and r["nmax"] > 1]
+        if not ties:
+            continue
+        rs_ = rng_for("neartie", n)
+        pick = [ties[int(v)] for v in rs_.choice(len(ties), size=min(len(ties), 8 if thorough else 2), replace=False)]
+        for r in pick:
+            for delta in (0.0, 1e-13, 1e-7, 1e-5, 1e-3):
+                ax = rs_.normal(size=3)
+                ax /= np.sqrt(np.dot(ax, ax))
+                q = np.array([math.cos(delta / 2)] + list(math.sin(delta / 2) * ax))
+                ubi = np.dot(np.array(r["x0"], float), quat_matrix(q))
+                case = {"kind": "float", "name": n, "ubi": ubi.tolist(), "delta": delta, "tie_of": r["x0"],
+                        "kinds": ["array", "list", "fortran"]}
+                out = guarded(judge_float, case, real, V)
+                nperturbed[out] = nperturbed.get(out, 0) + 1
+                chk.case(("neartie", n, tup(r["x0"]), delta))
     chk.notes["float_orientations"] = nfl
-    chk.notes["float_near_ties_skipped"] = nskip
+    chk.notes["float_near_ties_among_the_generic_ones"] = nnear
+    chk.notes["float_input_kinds"] = kinds_used
+    chk.notes["float_cell_scales"] = scales_used
+    chk.notes["float_perturbed_tie_orientations"] = nperturbed
+    if V.n() == 0 and (nperturbed["neartie"] == 0 or nperturbed["ok"] == 0):
+        raise common.MachineryError("vacuity: perturbed tie orientations must fall on both sides of the near-tie "
+                                    "margin (%r)" % (nperturbed,))
+
+    if thorough:
+        res = common.run_tlc("SymGroup", cfg_variant("SymGroup_hkl500.cfg", fixed=fixed, tag="h5"), workers=1, timeout=900)
+        chk.add_tlc("SymGroup hkl500 (HklCanonical expected to be violated at |l| = 500)", res)
+        if "HklCanonical" not in res.violated:
+            raise common.MachineryError("SymGroup_hkl500: TLC did not find the key tie at 500")
+    if OBSERVATIONS:
+        chk.notes["observations"] = dict(OBSERVATIONS)
 
     if thorough:
         selftest(real, urecs, hrecs, grecs, cells_of)
     V.flush()
     chk.rule = ("TLC enumerates, for each of the ten named groups, the makegroup behaviour, every sequence of 2 (3) "
-                "named-group calls, every exact UBI = conforming integer cell x rational rotation |q|^2R(q) with "
-                "quaternion components in -QMax..QMax and every hkl of the box, each from every group element "
-                "applied beforehand; non-trivial = group of order > 1 / hkl != 0 / call sequence longer than 1")
+                "named-group calls, every interleaving of two concurrent first calls (quick: each name against itself "
+                "+ 9 pairs; thorough: all 55 pairs), every exact UBI = conforming integer cell x rational rotation "
+                "|q|^2R(q) with quaternion components in -QMax..QMax, every hkl of the box and static + seeded hkl up "
+                "to 499, each from every group element applied beforehand; seeded: two-thread schedules, hkl arrays, "
+                "float orientations (scales, input kinds, perturbed ties), users; non-trivial = group of order > 1 / "
+                "hkl != 0 / call sequence longer than 1")
     chk.exhaustive = True
     chk.assumptions = ["exact cases are integer UBIs (products of small integers are exact in double precision)",
-                       "float orientations: orbits whose two best traces are closer than 1e-6 relative are skipped "
-                       "(ties are decided in exact arithmetic only)",
-                       "point_by_point.idxpoint is driven with the indexer, peak selection and unique-peak counter "
-                       "stubbed (thorough tier)"]
+                       "float orientations: when the two best traces of the orbit are closer than 1e-10 relative the "
+                       "canonical clause is not judged (ties are decided in exact arithmetic only); every other clause is",
+                       "hkl clauses: entries up to 499 over the whole orbit, int64 / int32 / float64 arrays (beyond: the "
+                       "packed key is not injective, SymGroup_hkl500.cfg; int16 / float32: key overflows / loses bits)",
+                       "two threads: CPython threads scheduled at the hook points (dictionary accesses, group(), "
+                       "additem, op) - a thread switch inside numpy or between two bytecodes of one step is not modelled",
+                       "point_by_point.initializer / idxpoint are driven with the file readers, indexer, peak selection "
+                       "and unique-peak counter stubbed (thorough tier only: importing the module costs 25 s)"]
     chk.notes["tolerance"] = "exact integer equality for exact cases; 1e-9*scale+1e-12 for float orientations"
     chk.notes["trigonal_generator_variant"] = "fixed" if fixed else "pinned"
     return chk.finish()
@@ -1144,10 +1917,102 @@ def do_replay(chk, real, V, path):
     return chk.finish()
 
 
+def selftest_new_families(real, urecs, grecs, fixed, rejected):
+    """two threads, hkl arrays, near ties, users on float orientations: accepted as they are, rejected when the
+    expectation / the observed behaviour is perturbed"""
+    # ---- two threads
+    res = common.run_tlc("SymGroup", cfg_variant("SymGroup_conc.cfg", fixed=fixed, tag="sc",
+                                                 pairs=[["monoclinic_c"], ["tetragonal"]]), workers=WORKERS, timeout=600)
+    if res.violated or not res.finished:
+        raise common.MachineryError("selftest: two-thread TLC run failed %r %r" % (res.violated, res.error))
+    crecs = [r for r in parse_records(res, "selftest conc") if r.get("kind") == "conc"]
+    closure = {r["name"]: r["group"] for r in grecs}
+    jobs = [{"names": ["monoclinic_c"] * 2, "policy": {"kind": "cut", "first": 0, "k": 4}},
+            {"names": ["tetragonal"] * 2, "policy": {"kind": "cut", "first": 1, "k": 40}},
+            {"names": ["tetragonal"] * 2, "policy": {"kind": "cut", "first": 0, "k": 200}}]
+    results = run_conc_child(jobs)
+    for job, result in zip(jobs, results):
+        n = job["names"][0]
+        model = [r for r in crecs if r["names"][0] == n]
+        case = {"kind": "conc", "names": job["names"], "policy": job["policy"], "closure": {k: v for k, v in closure.items() if k == n},
+                "model": model}
+        v = Verdicts(None)
+        judge_conc(case, real, v, result=result)
+        if v.n():
+            raise common.MachineryError("selftest: unperturbed two-thread result rejected: %r" % (v.order,))
+        m2 = copy.deepcopy(model)
+        for r in m2:
+            for e in r["ev"]:
+                e[2] += 1
+        v = Verdicts(None)
+        judge_conc(dict(case, model=m2), real, v, result=result)
+        if ("conc", "conform", "protocol", "same") not in v.classes:
+            raise common.MachineryError("selftest: perturbed dictionary-access history of the model not rejected")
+        r2 = copy.deepcopy(result)
+        r2["threads"][1]["returned"] = r2["threads"][1]["returned"][:1]        # what a lookup in mid-build would hand out
+        v = Verdicts(None)
+        judge_conc(case, real, v, result=r2)
+        if ("conc", n, "held") not in v.classes:
+            raise common.MachineryError("selftest: a caller holding an unfinished group was not rejected")
+        r3 = copy.deepcopy(result)
+        for e in r3["events"]:
+            if e["op"] == "pub":
+                e["len"] = 1                                                    # stored before it was built
+        v = Verdicts(None)
+        judge_conc(case, real, v, result=r3)
+        if ("conc", "conform", "protocol", "same") not in v.classes:
+            raise common.MachineryError("selftest: a group published before it was built was not rejected")
+    # ---- hkl arrays: a packing base of 100 must be noticed
+    rs_ = np.random.RandomState(5)
+    hcase = {"kind": "hbig", "name": "tetragonal", "dtype": "int64", "hkls": seeded_hkls(rs_, 200, 1, 499)}
+    if rejected(judge_hbig, hcase):
+        raise common.MachineryError("selftest: unperturbed hkl array rejected")
+    orig = sym_u.find_uniq_hkls
+    try:
+        sym_u.find_uniq_hkls = lambda hkls, grp: orig(hkls, grp, func=lambda h: sym_u.hklmax(h, 100))
+        if not rejected(judge_hbig, hcase):
+            raise common.MachineryError("selftest: find_uniq_hkls with packing base 100 not rejected")
+    finally:
+        sym_u.find_uniq_hkls = orig
+    # ---- near tie: a result between the two tying members must be noticed although the canonical clause is off
+    t = next((r for r in urecs if r["nmax"] > 1 and r["name"] == "tetragonal"), None)
+    if t is not None:
+        ncase = {"kind": "float", "name": "tetragonal", "ubi": [[float(v) for v in row] for row in t["x0"]],
+                 "kinds": ["array", "list", "fortran", "strided", "func", "debug"]}
+        v = Verdicts(None)
+        if judge_float(ncase, real, v) != "neartie" or v.n():
+            raise common.MachineryError("selftest: exact tie orientation not accepted as a near tie")
+        origu = sym_u.find_uniq_u
+
+        def averaged(u, grp, debug=0, func=None):
+            G_ = [np.dot(o, u) for o in grp.group]
+            tr_ = sorted(G_, key=lambda m: -float(np.trace(m)))
+            return 0.5 * (tr_[0] + tr_[1])
+        try:
+            sym_u.find_uniq_u = averaged
+            if not rejected(judge_float, ncase):
+                raise common.MachineryError("selftest: near-tie result outside the orbit not rejected")
+        finally:
+            sym_u.find_uniq_u = origu
+    # ---- users on float orientations: the 'other' grain made a symmetry image must change the count
+    G = real.mats["tetragonal"]
+    ubi = np.dot(cell_rows(FLOAT_CELLS["tetragonal"][0]), quat_matrix(np.array([0.9, 0.1, -0.3, 0.2])))
+    other = np.dot(ubi, quat_matrix(np.array([0.8, -0.3, 0.4, 0.1])))
+    ucase = {"kind": "users_float", "name": "tetragonal", "sym": "tetragonal", "ubi": ubi.tolist(), "other": other.tolist(),
+             "order": list(range(len(G) + 3))}
+    if rejected(judge_users_float, ucase):
+        raise common.MachineryError("selftest: unperturbed float user case rejected")
+    ucase2 = dict(ucase, other=np.dot(np.array(G[1], float), ubi).tolist())
+    if not rejected(judge_users_float, ucase2):
+        raise common.MachineryError("selftest: float user case with a wrong grain count not rejected")
+
+
 def selftest(real=None, urecs=None, hrecs=None, grecs=None, cells_of=None):
     """the binding rejects perturbed expectations"""
+    global SHADOW
     if real is None:
         shadow = common.build_shadow("normal")
+        SHADOW = shadow
         if np is None:
             common.use_shadow(shadow)
             _imports()
@@ -1232,6 +2097,7 @@ def selftest(real=None, urecs=None, hrecs=None, grecs=None, cells_of=None):
         pc["res"][2] = mm(real.mats[u["name"]][1], u["res"][2])
         if not rejected(judge_pbp, pc):
             raise common.MachineryError("selftest: perturbed idxpoint expectation not rejected")
+    selftest_new_families(real, urecs, grecs, fixed, rejected)
     # float judge: a cell that does NOT conform (gamma = 60 with the hexagonal group) must be flagged
     ubi = np.dot(cell_rows((3.2, 3.2, 5.2, 90, 90, 60)), quat_matrix(np.array([0.9, 0.1, -0.3, 0.2])))
     if not rejected(judge_float, {"kind": "float", "name": "hexagonal", "ubi": ubi.tolist()}):
